@@ -175,7 +175,7 @@ def small_family(tier):
 
 # ---------------------------------------------------------------- truthiness family
 
-TRUTH_SHAPES = ('if', 'elif', 'while', 'not-if', 'and-or')
+TRUTH_SHAPES = ('if', 'elif', 'while', 'not-if', 'and-or', 'neg-if', 'neg-while', 'group-if', 'notnot-elif')
 
 
 def truth_pool():
@@ -197,6 +197,15 @@ def check_truth(case, acc):
         body = [('while', gv, [log('T'), ('break',)]), log('end')]
     elif shape == 'not-if':
         body = [('if', [(('not', gv), [log('N')])], [log('P')]), ('return', ('not', gv))]
+    elif shape == 'neg-if':
+        # the whole condition is a unary minus (truthy iff gv is a non-zero number)
+        body = [('if', [(('neg', gv), [log('T')])], [log('F')]), log('end')]
+    elif shape == 'neg-while':
+        body = [('while', ('neg', gv), [log('T'), ('break',)]), log('end')]
+    elif shape == 'group-if':
+        body = [('if', [(('grp', gv), [log('T')])], [log('F')]), ('while', ('grp', ('not', gv)), [log('W'), ('break',)]), log('end')]
+    elif shape == 'notnot-elif':
+        body = [('if', [(('call', 'cc', []), [log('A')]), (('not', ('not', gv)), [log('T')]), (('neg', ('neg', gv)), [log('U')])], [log('F')]), log('end')]
     else:
         body = [('assign', 'aa', ('bin', '&&', gv, ('str', 'R'))), ('assign', 'oo', ('bin', '||', gv, ('str', 'R'))),
                 ('if', [(('bin', '&&', gv, ('num', 1)), [log('T')])], [log('F')])]
@@ -217,7 +226,7 @@ def fam_truth(arg):
 def truth_family(_tier):
     n = len(truth_pool())
     return Family('truth', fam_truth, [[i] for i in range(n)],
-                  f'each of {n} pool values (all nine types, empty/zero/falsy corners) as condition of if, elif, while, under !, and as && / || operand',
+                  f'each of {n} pool values (all nine types, empty/zero/falsy corners) as condition of if, elif, while - plain, under !, under unary minus, in a group, doubly negated - and as && / || operand',
                   expected=n * len(TRUTH_SHAPES))
 
 
